@@ -13,6 +13,35 @@ THEOREMS = [
 ]
 
 
+# the code that walks the tables, translated from a generated scanner (compressed tables, -Cem), does what the decoders do
+STEP_THEOREMS = ['FlexVerif.C01Step.' + t for t in ('tab_eval', 'comp_code', 'compStep_st_ne_jam', 'step_code', 'saveAcc_run', 'nulTrans_shape',
+                                                  'prevState_shape', 'nulTrans_spec', 'cellStep_eq_stepByte', 'forBody_run', 'for_loop',
+                                                  'prevState_spec')]
+THEOREMS += STEP_THEOREMS
+
+
+def regen_prevstate():
+    """translate yy_get_previous_state() / yy_try_NUL_trans() of a scanner flex generates now into lean/FlexVerif/Gen/PrevState.lean"""
+    import fcntl
+    from . import gen_prevstate
+    flex, src = flexrun.build_flex()
+    try:
+        body, info = gen_prevstate.generate(flex, flexrun.scratch_root())
+    except gen_prevstate.TranslateError as e:
+        return None, str(e)
+    path = os.path.join(common.LEAN_DIR, 'FlexVerif', 'Gen', 'PrevState.lean')
+    lock = open(os.path.join(common.LEAN_DIR, '.build.lock'), 'w')
+    fcntl.flock(lock, fcntl.LOCK_EX)
+    try:
+        old = open(path).read() if os.path.exists(path) else ''
+        if old != body:
+            open(path, 'w').write(body)
+    finally:
+        fcntl.flock(lock, fcntl.LOCK_UN)
+        lock.close()
+    return info, None
+
+
 def _work(job):
     (flex, workdir, idx, seed, kind, budget, dtimeout) = job
     rng = random.Random(seed)
@@ -42,6 +71,9 @@ def _work(job):
 def run(ctx):
     flex, src = flexrun.build_flex()
     work = flexrun.scratch_root()
+    info, err = regen_prevstate()
+    if err:
+        ctx.violation('translator of yy_get_previous_state() / yy_try_NUL_trans() gave up: ' + err, {'error': err}, no_input=True)
     discharged = common.proof_audit(ctx, THEOREMS)
     n = {'quick': 160, 'thorough': 3000}[ctx.tier]
     rng = ctx.rng('cases')
@@ -79,6 +111,10 @@ def run(ctx):
                           {'lex': r['lex'], 'opts': r['opts']}, no_input=True)
     for b in getattr(ctx, 'proof_broken', []):
         ctx.violation('proof obligation broken: ' + b, {'broken': b}, no_input=True)
+    if any('C01Step' in b or 'PrevState' in b for b in getattr(ctx, 'proof_broken', [])):
+        # the code that walks the tables no longer does what the decoders do: the tables themselves may be fine, so the
+        # validator above cannot show an input - run generated scanners against the specification to find one
+        rtprop.explore(ctx, [('plain', 64, 8), ('eof', 32, 6)])
     validated = stats.get('ok', 0)
     cov = {
         'programs': validated,
@@ -91,7 +127,10 @@ def run(ctx):
         'unexplored_exhausted': stats.get('exhausted', 0),
         'explanation': 'each program: flex run on a generated rule set, emitted tables decoded and '
                        'proved-sound bisimulation check against the derivative automaton of the documented '
-                       'pattern semantics, from all 2*nsc start states, all byte strings',
+                       'pattern semantics, from all 2*nsc start states, all byte strings; the state-walking code itself (yy_get_previous_state, '
+                       'yy_try_NUL_trans with the default-chain loop over yy_base/yy_chk/yy_def/yy_nxt/yy_meta) is translated from a scanner '
+                       'generated in this run with -Cem and proved to compute the decoders\' step, every table read inside its bounds '
+                       '(C01Step.nulTrans_spec, prevState_spec)',
     }
     return common.finish(ctx, 'translation_validation', cov,
                          ['rule files are printed from abstract syntax by tools/fv/patgen.py; the Lean side '
